@@ -1,11 +1,17 @@
 """C15 — built-in biological tables and enumerated algebras (finite domains, enumerated completely)."""
 import itertools
+import json
+import os
+import subprocess
+import sys
+
+from hypothesis import strategies as st
 
 import harness.compat  # noqa: F401
 from Bio.Data import CodonTable
 from Bio.Seq import complement as bio_complement
 
-from harness.core import Leg, Prop
+from harness.core import Leg, Prop, VERIF_DIR, REPO_DIR
 from inscripta.biocantor import constants
 from inscripta.biocantor.gene.biotype import Biotype
 from inscripta.biocantor.gene.cds_frame import CDSFrame, CDSPhase
@@ -343,6 +349,175 @@ def check_biotypes(spec, ctx):
     ctx.true("canonical_name_in_group", b.name in group, b.name)
 
 
+# ------------------------------------------------------------------ call histories on a pristine process
+# The tables are answers of *functions*; a memo filled by an earlier question must not change a later answer.  Every history
+# runs in a child forked from a pristine interpreter (harness/zygote.py), so it starts from fresh-process state.
+
+_zygote = None
+
+
+def zygote():
+    global _zygote
+    if _zygote is None or _zygote.poll() is not None:
+        env = dict(os.environ, PYTHONPATH=os.pathsep.join([VERIF_DIR, REPO_DIR, os.path.join(VERIF_DIR, ".deps")]))
+        _zygote = subprocess.Popen([sys.executable, "-W", "ignore", "-m", "harness.zygote"], stdin=subprocess.PIPE, stdout=subprocess.PIPE,
+                                   env=env, cwd=VERIF_DIR, text=True, bufsize=1)
+    return _zygote
+
+
+def ask_pristine(calls):
+    z = zygote()
+    z.stdin.write(json.dumps(calls) + "\n")
+    z.stdin.flush()
+    line = z.stdout.readline()
+    if not line:
+        raise RuntimeError("zygote died")
+    out = json.loads(line)
+    if isinstance(out, dict):
+        raise RuntimeError("zygote: %s" % out)
+    return out
+
+
+STRICT64 = ["".join(t) for t in itertools.product("ACGT", repeat=3)]
+FRAMES = ["ZERO", "ONE", "TWO", "NONE"]
+STRANDS = ["PLUS", "MINUS", "UNSTRANDED"]
+
+
+def oracle_call(c):
+    """expected answer of one zygote call, from the typed-in / Biopython references; None = not judged here"""
+    op = c[0]
+    if op in ("syn", "translate", "stop", "strict", "canon", "start", "str"):
+        up = c[1].upper()
+        is_strict = set(up) <= set("ACGT")
+        exp_aa = sorted(set(std_translate(e) for e in expansions(up)))
+        loose = exp_aa[0] if len(exp_aa) == 1 else "X"
+        if op == "translate":
+            if is_strict:
+                return std_translate(up)
+            return "X" if c[2] else None  # the non-strict ambiguous case is judged by the codons leg
+        if op == "stop":
+            return is_strict and up in _T1.stop_codons
+        if op == "strict":
+            return is_strict
+        if op == "canon":
+            return up == "ATG"
+        if op == "start":
+            return up in {"DEFAULT": ["ATG"], "STANDARD": _T1.start_codons, "PROKARYOTE": _T11.start_codons}[c[2]]
+        if op == "str":
+            return [up, up, up]
+        if op == "syn":
+            if not is_strict:
+                return None
+            fam = sorted(x for x in STRICT64 if std_translate(x) == std_translate(up))
+            return fam if c[2] else [x for x in fam if x != up]
+    if op == "shift":
+        if c[1] == "NONE":
+            return None
+        return FRAMES[(FRAMES.index(c[1]) + c[2]) % 3]
+    if op == "to_phase":
+        return {"ZERO": "ZERO", "ONE": "TWO", "TWO": "ONE", "NONE": "NONE"}[c[1]]
+    if op == "to_frame":
+        return {"ZERO": "ZERO", "ONE": "TWO", "TWO": "ONE", "NONE": "NONE"}[c[1]]
+    if op == "phase_gff":
+        return {"ZERO": "0", "ONE": "1", "TWO": "2", "NONE": "."}[c[1]]
+    if op == "rev":
+        return {"PLUS": "MINUS", "MINUS": "PLUS", "UNSTRANDED": "UNSTRANDED"}[c[1]]
+    if op == "rel":
+        a, b = c[1], c[2]
+        if "UNSTRANDED" in (a, b):
+            return "UNSTRANDED"
+        return "PLUS" if a == b else "MINUS"
+    if op == "symbol":
+        return {"+": "PLUS", "-": "MINUS", ".": "UNSTRANDED"}[c[1]]
+    if op == "revcomp":
+        return "".join(IUPAC_COMPLEMENT[x] for x in reversed(c[1]))
+    return None
+
+
+def check_call_history(spec, ctx):
+    calls = [list(c) for c in spec["calls"]] + [["sweep_syn"]]
+    got = ask_pristine(calls)
+    fams = {}
+    for c in calls[:-1]:
+        if c[0] == "syn" and set(c[1].upper()) <= set("ACGT"):
+            fams.setdefault(std_translate(c[1].upper()), []).append(c[2])
+    if any(len(v) >= 2 and len(set(v)) == 2 for v in fams.values()):
+        ctx.nt("same_family_both_flags")
+    if any(v and v[0] is False for v in fams.values()):
+        ctx.label("family_first_asked_without_self")
+    for i, (c, g) in enumerate(zip(calls[:-1], got)):
+        exp = oracle_call(c)
+        if exp is None:
+            continue
+        if "exc" in g:
+            ctx.fail("history_call_raised:%s" % c[0], {"call": c, "index": i, "exc": g})
+            continue
+        ctx.eq("history_answer:%s" % c[0], g["v"], exp, extra={"call": c, "index": i})
+    sweep = got[-1]
+    if "exc" in sweep:
+        ctx.fail("sweep_raised", sweep)
+        return
+    sweep = sweep["v"]
+    seen = {}
+    for k in STRICT64:
+        fam = sorted(x for x in STRICT64 if std_translate(x) == std_translate(k))
+        incl, excl, aa, stop = sweep[k]
+        ctx.eq("after_history:synonymous_incl", incl, fam, extra=k)
+        ctx.eq("after_history:synonymous_excl", excl, [x for x in fam if x != k], extra=k)
+        ctx.eq("after_history:translate", aa, std_translate(k), extra=k)
+        ctx.eq("after_history:is_stop", stop, k in _T1.stop_codons, extra=k)
+        seen.setdefault(tuple(incl), set()).add(k)
+    # the synonym sets partition the 64 codons
+    ctx.true("after_history:partition", sorted(x for s_ in seen for x in s_) == STRICT64 and all(set(k) == v for k, v in seen.items()),
+             {"classes": len(seen)})
+
+
+@st.composite
+def strat_history(draw, tier="quick"):
+    fams = draw(st.lists(st.sampled_from("GLSRA*MWFKIV"), min_size=1, max_size=3))
+    pool = [x for x in STRICT64 if std_translate(x) in fams]
+    amb = [p[:2] + "N" for p in pool] + ["NNN", "RAY", "ggn"]
+    codon = st.one_of(st.sampled_from(pool), st.sampled_from(pool).map(str.lower), st.sampled_from(amb), st.sampled_from(STRICT64))
+    one = st.one_of(
+        st.tuples(st.just("syn"), codon, st.booleans()),
+        st.tuples(st.just("syn"), codon, st.booleans()),
+        st.tuples(st.just("translate"), codon, st.booleans()),
+        st.tuples(st.sampled_from(["stop", "strict", "canon", "str"]), codon),
+        st.tuples(st.just("start"), codon, st.sampled_from(["DEFAULT", "STANDARD", "PROKARYOTE"])),
+        st.tuples(st.just("shift"), st.sampled_from(FRAMES[:3]), st.integers(-7, 7)),
+        st.tuples(st.sampled_from(["to_phase"]), st.sampled_from(FRAMES)),
+        st.tuples(st.sampled_from(["to_frame", "phase_gff"]), st.sampled_from(FRAMES)),
+        st.tuples(st.just("rel"), st.sampled_from(STRANDS), st.sampled_from(STRANDS)),
+        st.tuples(st.just("rev"), st.sampled_from(STRANDS)),
+        st.tuples(st.just("symbol"), st.sampled_from("+-.")),
+        st.tuples(st.just("revcomp"), st.text("ACGTRYKMN", min_size=1, max_size=6), st.just("NT_EXTENDED")),
+    )
+    calls = [list(c) for c in draw(st.lists(one, min_size=1, max_size=8))]
+    if draw(st.integers(0, 3)):
+        # a run of synonym questions inside one family (strict and ambiguous members, both flags), placed first or last
+        fam = [x for x in STRICT64 if std_translate(x) == fams[0]]
+        run = draw(st.lists(st.tuples(st.just("syn"), st.sampled_from(fam + [fam[0][:2] + "N", fam[-1].lower()]), st.booleans()), min_size=2, max_size=5))
+        run = [list(c) for c in run]
+        calls = run + calls if draw(st.booleans()) else calls + run
+    return {"calls": calls}
+
+
+def enum_first_questions(tier, shard, nshards):
+    """every single first question about synonyms (64 strict + 16 ambiguous codons x include_self), and every ordered pair of
+    questions inside three families"""
+    def gen():
+        for k in STRICT64 + [a + b + "N" for a in "ACGT" for b in "ACGT"]:
+            for f in (False, True):
+                yield {"calls": [["syn", k, f]]}
+        for aa in "G*I":
+            fam = [x for x in STRICT64 if std_translate(x) == aa] + [[x for x in STRICT64 if std_translate(x) == aa][0][:2] + "N"]
+            qs = [["syn", k, f] for k in fam for f in (False, True)] + [["translate", fam[0], True], ["stop", fam[0]]]
+            for a in qs:
+                for b in qs:
+                    yield {"calls": [a, b]}
+    return shard_iter(gen(), shard, nshards)
+
+
 PROP = Prop(
     pid="C15",
     legs=[
@@ -358,6 +533,14 @@ PROP = Prop(
             rule="all ordered strand pairs (+triples for associativity/transitivity), all symbols/ints"),
         Leg("biotypes", check_biotypes, enumerate=enum_biotypes, exhaustive=True, shards_quick=1, shards_thorough=1,
             rule="every Biotype member name; synonym groups typed in from the documentation"),
+        Leg("first_questions", check_call_history, enumerate=enum_first_questions, exhaustive=True, shards_quick=8, shards_thorough=8,
+            must_hit=["family_first_asked_without_self"],
+            rule="each history runs in a child forked from a pristine interpreter: every single first synonym question (80 codons x include_self) and every "
+                 "ordered pair of questions inside the Gly, stop and Ile families, each followed by a sweep of the whole synonym partition"),
+        Leg("call_histories", check_call_history, strategy=strat_history, n_quick=150, n_thorough=2500, shards_quick=4,
+            must_hit=["same_family_both_flags", "family_first_asked_without_self"],
+            rule="random histories of 1..10 table questions (codon synonyms/translation/start/stop in 1..3 amino-acid families, frame shift/phase, strand algebra, "
+                 "reverse complement), each on pristine process state, each followed by the whole-partition sweep"),
     ],
     rule="Finite domains enumerated completely; every element of each domain is one distinct non-trivial case "
          "(distinct = canonical JSON of the element).",
